@@ -33,7 +33,7 @@ def REQUIRED(tier):
 
 def _required(tier):
     return ["files_cleaned", "hook:apply_mask", "hook:apply_method", "hook:apply_funcn", "mask_union_checks", "vectors:mad", "vectors:iqrm", "vector:all_equal", "vector:planted_outlier",
-            "file_samples_compared", "regime:multi_block", "roundtrip_checks", "freq:empty_list", "freq:outside_band", "freq:overlapping", "freq:limit_on_centre", "algebra_histories", "regime:subrange_cleaned", "regime:negative_float_samples", "regime:float_mask_value_outside_0_255", "custom_function_input_checks"]
+            "file_samples_compared", "regime:multi_block", "roundtrip_checks", "freq:empty_list", "freq:outside_band", "freq:overlapping", "freq:limit_on_centre", "algebra_histories", "regime:subrange_cleaned", "regime:negative_float_samples", "regime:float_mask_value_outside_0_255", "custom_function_input_checks", "regime:cleaning_after_a_refused_call", "regime:integer_valued_custom_mask"]
 
 
 def cases(tier, seed):
@@ -197,6 +197,7 @@ def _file(case, ctx):
     ctx.count(f"freq:{fcls}")
     cust_k = int(rng.integers(0, 3))
     cust_idx = rng.choice(nch, size=2, replace=False)
+    int_mask = bool(cust_k and np.random.default_rng([case["seed"], 167]).random() < 0.35)   # the custom function answers with 0/1 integers instead of booleans
 
     seen_by_custom = []
 
@@ -206,8 +207,8 @@ def _file(case, ctx):
         if cust_k == 1:
             out[cust_idx] = True
         elif cust_k == 2:
-            out[1:] = mask[:-1]  # neighbours of already masked channels
-        return out
+            out[1:] = np.asarray(mask, dtype=bool)[:-1]  # neighbours of already masked channels
+        return out.astype(np.int64) if int_mask else out
 
     mval = None if rng.random() < 0.5 else float(rng.integers(0, top + 1))
     if force is not None:
@@ -227,6 +228,19 @@ def _file(case, ctx):
     one = dict(case, params={"nbits": nbits, "nchans": nch, "N": N, "method": method, "threshold": thr, "freq_class": fcls, "freq_mask": franges,
                              "custom": cust_k, "mask_value": mval, "gulp": gulp, "nfiles": nfiles, "start": start, "nsamps": nsel})
     out = os.path.join(d, "clean.fil")
+    if np.random.default_rng([case["seed"], 169]).random() < 0.3:
+        # a call the library must refuse while it streams (overlap as long as the block) comes first on the same reader
+        try:
+            with np.errstate(all="ignore"):
+                fil.clean_rfi(method=method, threshold=thr, outfile_name=os.path.join(d, "refused.fil"), gulp=5, skipback=5, quiet=True, description="v")
+        except ValueError:
+            ctx.count("regime:cleaning_after_a_refused_call")
+        except Exception:  # noqa: BLE001
+            pass
+        if os.path.exists(os.path.join(d, "refused.fil")):
+            os.unlink(os.path.join(d, "refused.fil"))
+    if int_mask:
+        ctx.count("regime:integer_valued_custom_mask")
     _hook["events"].clear(); _hook["viol"].clear()
     ctx.evaluated()
     try:
@@ -234,6 +248,9 @@ def _file(case, ctx):
             name, mask = fil.clean_rfi(method=method, threshold=thr, freq_mask=franges, custom_funcn=custom if cust_k else None, mask_value=mval,
                                        outfile_name=out, gulp=gulp, start=start, nsamps=nsel, quiet=True, description="v")
     except Exception as exc:  # noqa: BLE001
+        if int_mask and isinstance(exc, (TypeError, ValueError)):
+            ctx.count("integer_custom_mask_refused")   # refusing a non-boolean answer is fine; using it wrongly is not
+            return
         ctx.violation(f"clean_rfi-raised:{type(exc).__name__}@{exc_site(exc)}", fmt_exc(exc), one)
         return
     ctx.count("files_cleaned")
